@@ -83,8 +83,7 @@ h_offset_drop!(c01_offset_drop__s1, S1, S1::any(), 0);
 // @h props=C01,C04 fuc=OffsetArc::with_arc,Arc::clone,Arc::drop
 gproof! { fn c04_offset_with_arc_callback() {
     let n = any_count();
-    kani::assume(n < isize::MAX as usize);
-    let a = mk(Tr8::new(), n);
+        let a = mk(Tr8::new(), n);
     let (b0, id, c0) = (base(&a), a.id, cw(&a));
     let o = Arc::into_raw_offset(a);
     let keep: bool = kani::any();
@@ -145,8 +144,7 @@ gproof! { fn c08_offset_make_mut__tr8() {
 
 // @h props=C16 kind=panic site="abort" fuc=OffsetArc::clone
 gpanic! { fn c16_offset_clone_overflow_aborts() {
-    let n: usize = kani::any();
-    kani::assume(n > isize::MAX as usize);
+    let n = vrt::overflow_count();
     let o = Arc::into_raw_offset(mk(S1::any(), n));
     let o2 = o.clone();
     core::mem::forget(o);
@@ -155,8 +153,7 @@ gpanic! { fn c16_offset_clone_overflow_aborts() {
 
 // @h props=C16 kind=panic site="abort" fuc=OffsetArc::clone_arc
 gpanic! { fn c16_offset_clone_arc_overflow_aborts() {
-    let n: usize = kani::any();
-    kani::assume(n > isize::MAX as usize);
+    let n = vrt::overflow_count();
     let o = Arc::into_raw_offset(mk(S1::any(), n));
     let c = o.clone_arc();
     core::mem::forget(o);
@@ -165,8 +162,7 @@ gpanic! { fn c16_offset_clone_arc_overflow_aborts() {
 
 // @h props=C16 kind=panic site="abort" fuc=Arc::with_raw_offset_arc,OffsetArc::clone note="clone inside a borrow callback"
 gpanic! { fn c16_clone_inside_with_raw_offset_arc_overflow_aborts() {
-    let n: usize = kani::any();
-    kani::assume(n > isize::MAX as usize);
+    let n = vrt::overflow_count();
     let a = mk(S1::any(), n);
     a.with_raw_offset_arc(|o| { let c = o.clone(); core::mem::forget(c); });
     core::mem::forget(a);
